@@ -165,9 +165,20 @@ def rule_pair(ctx):
                f"the xward PQ buses pass through {bad}: the result is sorted / de-duplicated while the weights stay in xward row order - "
                "xwards whose buses are not ascending swap weights, two xwards at one bus no longer match in length", fx.loc(r))
     fm = ctx.repo.func(f"{BG}:_gen_xward_mask")
-    txt = ast.unparse(fm.node).replace('"', "'")
-    ctx.ob(R, f"{BG}::_gen_xward_mask::complement", "gen_mask = ~np.isin(" in txt and "xward_mask = np.isin(" in txt and
-           txt.count(".get('aux', dict()).get('xward', [])") == 2, "gen_mask and xward_mask are complements on the aux xward buses", fm.loc())
+    asg = _assigns(fm.node)
+    from ppsa.astutil import inline_locals
+    def val(n):
+        st = asg.get(n)
+        return norm(inline_locals(fm.node, st[0].value), 300).replace(" ", "").replace('"', "'") if st else ""
+    g, x = val("gen_mask"), val("xward_mask")
+    ok = g == "~" + x and x.startswith("np.isin(ppc['gen'][:,GEN_BUS],")
+    ctx.ob(R, f"{BG}::_gen_xward_mask::complement", ok, "gen_mask is the complement of xward_mask over the generator rows", fm.loc())
+    # index space: GEN_BUS holds ppc bus numbers, so the auxiliary buses must pass the bus lookup before the comparison
+    okl = "net['_pd2ppc_lookups']['bus'][" in x and ".get('aux',dict()).get('xward',[])" in x
+    ctx.ob(R, f"{BG}::_gen_xward_mask::ppc-numbering", okl,
+           "auxiliary xward buses mapped to ppc numbers before they are compared with GEN_BUS" if okl else
+           f"`xward_mask = {x[:120]}` compares ppc bus numbers with pandapower bus indices: the two coincide only for consecutive indices from 0",
+           fm.loc())
 
 
 def rule_norm(ctx):
@@ -451,6 +462,7 @@ def variants(repo):
     return [
         V("gen weights not written", bg, in_function("_build_pp_gen", replace_once('    ppc["gen"][f:t, SL_FAC] = net["gen"]["slack_weight"].values[gen_is]\n', "")), "_build_pp_gen::gen.slack_weight"),
         V("xward weights without in-service mask", bg, in_function("_build_pp_xward", replace_once('net["xward"]["slack_weight"].values[xw_is]', 'net["xward"]["slack_weight"].values[:t - f]')), "_build_pp_xward::xward.slack_weight"),
+        V("aux buses compared without the bus lookup", bg, replace_once("aux_buses_ppc = net[\"_pd2ppc_lookups\"][\"bus\"][aux_buses]", "aux_buses_ppc = aux_buses"), "ppc-numbering"),
         V("xward buses through setdiff1d", bg, replace_once("xward_pq_buses = xward_pq_buses[ppc['bus'][xward_pv_buses, BUS_TYPE] != NONE]",
                                                             "xward_pq_buses = np.setdiff1d(xward_pq_buses, xward_pq_buses[ppc['bus'][xward_pv_buses, BUS_TYPE] == NONE])"), "order-preserving"),
         V("xward buses unique", bg, replace_once("xward_pq_buses = xward_pq_buses[ppc['bus'][xward_pv_buses, BUS_TYPE] != NONE]",
